@@ -94,6 +94,11 @@ func c16Envelopes(tier string, seed int64, idx int, c c16Case, res *core.Result)
 	setGMP(c.GMP)
 	h := bed.NewHooks()
 	h.Jitter = uint64(seed)*5 + uint64(idx) + 1
+	var dmu sync.Mutex
+	droppedIDs := map[uint64]int{}
+	h.On("proxy.drop", func(id uint64) { dmu.Lock(); droppedIDs[id]++; dmu.Unlock() })
+	fwdIDs := map[uint64]int{}
+	h.On("proxy.forward", func(id uint64) { dmu.Lock(); fwdIDs[id]++; dmu.Unlock() })
 	h.Install()
 	ctx, cancel := context.WithCancel(context.Background())
 	peers := map[string]*c16Peer{}
@@ -103,9 +108,11 @@ func c16Envelopes(tier string, seed int64, idx int, c c16Case, res *core.Result)
 		p := &c16Peer{name: name, link: wire.NewLink(idx%3, idx%2 == 0)}
 		pmu.Lock()
 		peers[name] = p
-		credit[name] = make(chan struct{}, 12)
-		pmu.Unlock()
+		if credit[name] == nil {
+			credit[name] = make(chan struct{}, 12)
+		}
 		cr := credit[name]
+		pmu.Unlock()
 		wire.NewPeer(ctx, p.link.A, func(_ *wire.Peer, in *wire.Rpc) {
 			p.mu.Lock()
 			p.got = append(p.got, proto.Clone(in).(*wire.Rpc))
@@ -124,6 +131,7 @@ func c16Envelopes(tier string, seed int64, idx int, c c16Case, res *core.Result)
 	var dialNames []string
 	for i := 0; i < c.Dialable; i++ {
 		dialNames = append(dialNames, fmt.Sprintf("d%d", i))
+		credit[fmt.Sprintf("d%d", i)] = make(chan struct{}, 12) // exists before the peer is dialled
 	}
 	var rewrite goat.RpcIntercepter
 	alias := map[string]string{}
@@ -177,9 +185,11 @@ func c16Envelopes(tier string, seed int64, idx int, c c16Case, res *core.Result)
 	for si, src := range names {
 		wg.Add(1)
 		sr := rng(seed, idx*100+si, "c16src")
-		go func(src string) {
+		go func(src string, si int) {
 			defer wg.Done()
+			pmu.Lock()
 			p := peers[src]
+			pmu.Unlock()
 			for n := 0; n < c.PerSrc; n++ {
 				dst := allDest[sr.Intn(len(allDest))]
 				hd := &goatorepo.RequestHeader{Method: "/x/y", Source: src, Destination: dst,
@@ -234,7 +244,7 @@ func c16Envelopes(tier string, seed int64, idx int, c c16Case, res *core.Result)
 					return
 				}
 			}
-		}(src)
+		}(src, si)
 	}
 	_ = r
 	sendersDone := make(chan struct{})
@@ -276,7 +286,32 @@ func c16Envelopes(tier string, seed int64, idx int, c c16Case, res *core.Result)
 		res.Verdict, res.Note = core.Inconclusive, "watchdog"
 	}
 	quiet(tier)
-	drops := h.Hits()["proxy.drop"]
+	// drops of envelopes that can never be delivered (undialable destination: they pile up in the
+	// entry created for the dial until the dial error removes it) are not losses
+	smu.Lock()
+	deliverable := map[uint64]bool{}
+	descr := map[uint64]string{}
+	for _, rs := range sent {
+		for _, s := range rs {
+			if s.dest != "" {
+				deliverable[s.rpc.GetId()] = true
+				descr[s.rpc.GetId()] = fmt.Sprintf("%s->%s(final %s, next %v)", s.rpc.GetHeader().GetSource(), s.rpc.GetHeader().GetDestination(), s.dest, s.rpc.GetHeader().GetProxyNext())
+			}
+		}
+	}
+	smu.Unlock()
+	var drops int64
+	var dropDescr []string
+	dmu.Lock()
+	for id, n := range droppedIDs {
+		if deliverable[id] {
+			drops += int64(n)
+			dropDescr = append(dropDescr, fmt.Sprintf("%s fwd=%d", descr[id], fwdIDs[id]))
+		} else {
+			res.Stat("drops_of_undeliverable_envelopes", int64(n))
+		}
+	}
+	dmu.Unlock()
 	// oracle
 	smu.Lock()
 	pmu.Lock()
@@ -367,7 +402,7 @@ func c16Envelopes(tier string, seed int64, idx int, c c16Case, res *core.Result)
 	pmu.Unlock()
 	smu.Unlock()
 	if drops > 0 {
-		res.Violate("drop-in-bounded-envelope-workload", "the proxy dropped %d envelopes although at most 12 were outstanding per destination", drops)
+		res.Violate("drop-in-bounded-envelope-workload", "the proxy dropped %d envelopes although at most 12 were outstanding per destination: %v", drops, dropDescr)
 	}
 	res.Stat("envelopes_delivered_and_compared", int64(total))
 	res.Stat("source_destination_pairs", int64(len(names)*len(allDest)))
